@@ -73,7 +73,7 @@ pub enum Obs {
     Ok,
     Duplicate,
     Unknown,
-    Loaded(Option<(Map, u64 /* remaining ttl, secs */)>),
+    Loaded(Option<(Map, u64 /* remaining ttl, milliseconds */)>),
     Deleted(usize),
     OtherError(String),
 }
@@ -103,7 +103,7 @@ async fn exec(store: &dyn SessionStorageBackend, ids: &[SessionId], op: &Op) -> 
             Err(e) => Obs::OtherError(format!("{e:?}")),
         },
         Op::Load { id: i } => match store.load(id(i)).await {
-            Ok(r) => Obs::Loaded(r.map(|r| (from_state(&r.state), r.ttl.as_secs()))),
+            Ok(r) => Obs::Loaded(r.map(|r| (from_state(&r.state), r.ttl.as_millis() as u64))),
             Err(e) => Obs::OtherError(format!("{e:?}")),
         },
         Op::Delete { id: i } => match store.delete(id(i)).await {
@@ -137,6 +137,7 @@ async fn exec(store: &dyn SessionStorageBackend, ids: &[SessionId], op: &Op) -> 
 struct Rec {
     state: String, // canonical JSON of the map
     live: bool,
+    /// (milliseconds)
     ttl_s: u64,
 }
 
@@ -158,7 +159,7 @@ impl Model {
 
     fn put(&mut self, id: u8, state: &Map, ttl: u8) {
         let live = ttl % 3 != 0;
-        self.recs.insert(id, Rec { state: canon(state), live, ttl_s: ttl_of(ttl).as_secs() });
+        self.recs.insert(id, Rec { state: canon(state), live, ttl_s: ttl_of(ttl).as_millis() as u64 });
         if live {
             self.ghosts.remove(&id);
         } else {
@@ -206,7 +207,7 @@ impl Model {
                     (true, Obs::Ok) => {
                         let r = m.recs.get_mut(&id).unwrap();
                         r.live = ttl % 3 != 0;
-                        r.ttl_s = ttl_of(*ttl).as_secs();
+                        r.ttl_s = ttl_of(*ttl).as_millis() as u64;
                         if !r.live {
                             m.ghosts.insert(id);
                         }
@@ -223,8 +224,10 @@ impl Model {
                         if canon(state) != r.state {
                             return Err(format!("load returned {state:?}, last successful write was {}", r.state));
                         }
-                        if *ttl > r.ttl_s || *ttl + 30 < r.ttl_s {
-                            return Err(format!("load returned a remaining ttl of {ttl}s for a record written with ttl {}s", r.ttl_s));
+                        // (milliseconds: a record never lives longer than asked - not even by a fraction of a second -
+                        // and not more than 30 s shorter)
+                        if *ttl > r.ttl_s || *ttl + 30_000 < r.ttl_s {
+                            return Err(format!("load returned a remaining ttl of {ttl} ms for a record written with ttl {} ms", r.ttl_s));
                         }
                         Ok(m)
                     }
